@@ -31,6 +31,8 @@ type JobConfigScenario struct {
 	Kinds    []string  `json:"kinds"`    // scheduled | adhoc
 	Delete   bool      `json:"delete"`   // Jobs may be deleted (TTL clean-up / user)
 	Budget   mc.Budget `json:"budget"`
+	// ColdStart: after a restart the JobConfig and Job informers list one after the other (DESIGN.md 10.9).
+	ColdStart bool `json:"coldStart,omitempty"`
 	Preexist int       `json:"preexist"` // Jobs (started) existing before the controller starts
 }
 
@@ -61,6 +63,9 @@ func newJobConfigWorld(scn JobConfigScenario) *jobConfigWorld {
 	b := mc.NewBase(map[configv1alpha1.ConfigName]runtime.Object{}, true)
 	w.Base = b
 	b.Budget = scn.Budget
+	if scn.ColdStart {
+		b.ColdStart, b.ColdResources, b.ResyncMode = true, []string{sim.JobConfigs, sim.Jobs}, true
+	}
 	b.API.OnWrite = w.onWrite
 	b.Clock.SetTime(sim.Epoch.Add(time.Hour))
 	jc := newJobConfig("jc1", execution.ConcurrencyPolicyAllow, 0)
